@@ -344,3 +344,15 @@ package linker
 //@   prop C12
 //@   opt scenario layered_import_dropped
 //@   ensures trailing-layer-is-never-redundant: result ==> (forall i int :: len(later) <= i && i < len(earlier) ==> len(earlier[i].Layers) == 0)
+
+// C02 (export star with a CommonJS target falls back to run-time re-export): hasDynamicExportsDueToExportStar cuts
+// cycles with a `visited` set, which gives an interior node of a cycle a PROVISIONAL false. That answer is only valid
+// for the root being examined; every root of the scan must start from an empty set, or a file first met inside a cycle
+// is never examined as a root and never gets the dynamic-export fallback (`ns.fromZ` silently undefined).
+//@ flow cycle-guard-is-fresh-per-root C02: func=(*linkerContext).scanImportsAndExports ; in=linker ; site=call hasDynamicExportsDueToExportStar ; scenario=export_star_cycle_cjs ; arg-fresh-per-iteration=2
+
+// C19 ("the metafile is ... valid JSON"): the per-chunk metadata is JSON text with placeholders INSIDE string literals
+// (`"path": "<unique key>"`). What is pasted in their place must therefore be the JSON-escaped form of the final path: a
+// file name may contain `"`, `\` or control characters. (The other path-substitution closure of this function feeds JS/CSS
+// text and returns pathBetweenChunks.)
+//@ flow metafile-paths-are-json-escaped C19: func=(*linkerContext).generateChunksInParallel ; in=linker ; site=returns generateChunksInParallel$* ; scenario=metafile_quote_in_path ; retpath=0:call pathBetweenChunks(*) OR *call QuoteForJSON(*
